@@ -140,8 +140,10 @@ func (e *vestEnv) observe(c *fw.Case, o *txOutcome) {
 		return
 	}
 	feeD := map[string]map[string]*big.Int{}
-	addDelta(feeD, op.signer.Bech(), vDenom, neg(o.fee))
-	addDelta(feeD, e.feeAddr, vDenom, o.fee)
+	for _, fc := range op.fee {
+		addDelta(feeD, op.signer.Bech(), fc.Denom, neg(fc.Amount.BigInt()))
+		addDelta(feeD, e.feeAddr, fc.Denom, fc.Amount.BigInt())
+	}
 	signerExisted := o.pre.Accounts[op.signer.Bech()] != ""
 	if !signerExisted {
 		feeD = map[string]map[string]*big.Int{}
@@ -525,10 +527,7 @@ func (e *vestEnv) checkSplit(c *fw.Case, o *txOutcome, want map[string]map[strin
 	}
 	for d := range unionKeys(o.preSpendable, o.postSpendable, nil) {
 		got := new(big.Int).Sub(bigOf(o.postSpendable, d), bigOf(o.preSpendable, d))
-		wantD := new(big.Int)
-		if d == vDenom {
-			wantD = neg(o.fee)
-		}
+		wantD := neg(op.fee.AmountOf(d).BigInt())
 		if got.Cmp(wantD) != 0 {
 			c.ViolateD("C07/spendable-changed", map[string]string{"op": op.desc}, "%s: sender's spendable %s changed by %s (fee %s)", op.kind, d, got, o.fee)
 			return
